@@ -117,6 +117,24 @@ def sigmoid_cases(col):
     ok = (np.all(np.abs(f) <= 1.0) and np.allclose(inv, np.asarray(xs[1:-1]), rtol=1e-3, atol=1e-4)
           and np.allclose(fl, np.log(der), rtol=1e-3, atol=1e-4) and np.allclose(il, np.log(dinv), rtol=1e-3, atol=1e-4))
     col.add(None if ok else {"sig": "native::sigmoid", "what": "inverse/forward or log-det-Jacobian = log-derivative fails on the grid", "input": {"grid": [float(v) for v in xs]}})
+    # tails: log f'(x) = -1.5 log(1 + x^2) and log (f^-1)'(y) = -1.5 log(1 - y^2) in closed form (float64 reference), eager and jit
+    tails = np.array([-9999.0, -2000.0, -300.0, -100.0, 100.0, 300.0, 2000.0, 9999.0])
+    want = -1.5 * np.log1p(tails ** 2)
+    ytail = np.array([-0.9999, -0.999, 0.999, 0.9999])
+    wanty = -1.5 * np.log1p(-ytail.astype(np.float32).astype(np.float64) ** 2)
+    bad = None
+    for how, run in (("eager", lambda fn, v: fn(v)), ("jit", lambda fn, v: jax.jit(fn)(v))):
+        got = np.asarray(run(lambda t: AlgebraicSigmoid().forward_log_det_jacobian(t, event_ndims=0), jnp.asarray(tails, jnp.float32)), dtype=np.float64)
+        if not np.allclose(got, want, rtol=2e-4, atol=1e-4):
+            j = int(np.argmax(np.abs(got - want)))
+            bad = f"{how}: forward_log_det_jacobian({tails[j]}) = {got[j]}, log-derivative of the forward map is {want[j]}"
+            break
+        goty = np.asarray(run(lambda t: AlgebraicSigmoid().inverse_log_det_jacobian(t, event_ndims=0), jnp.asarray(ytail, jnp.float32)), dtype=np.float64)
+        if not np.allclose(goty, wanty, rtol=2e-3, atol=1e-3):
+            j = int(np.argmax(np.abs(goty - wanty)))
+            bad = f"{how}: inverse_log_det_jacobian({ytail[j]}) = {goty[j]}, log-derivative of the inverse map is {wanty[j]}"
+            break
+    col.add(None if bad is None else {"sig": "native::sigmoid_tails", "what": bad, "input": {"x": tails.tolist(), "y": ytail.tolist()}})
 
 
 def copula_cases(col):
@@ -152,7 +170,7 @@ def bounded(tier, seed):
     return {
         "evaluations": col.evals, "distinct_nontrivial": col.evals,
         "rule": (f"BOUNDED: {n} seeded degenerate-MVN cases (dim 1-4, rank 0..dim, variance in {{0.37,1,5}}) x 7 constructor variants against an eigendecomposition "
-                 "reference incl. null-space invariance; RW1 penalty with eigenvalues scaled by 1e7 / 1e-7 and supplied rank; a (2,2) batch; algebraic sigmoid on a 9-point grid "
+                 "reference incl. null-space invariance; RW1 penalty with eigenvalues scaled by 1e7 / 1e-7 and supplied rank; a (2,2) batch; algebraic sigmoid on a 9-point grid and in the tails (|x| up to 9999, |y| up to 0.9999, closed-form float64 reference, eager and jit) "
                  "(inverse, |forward| <= 1, ldj = log of jax.grad); Gaussian copula on 7 dependences in (-1,1) x 5 points x validate_args in {False, True} against the closed form, "
                  f"plus a matrix batch. Sampling-distribution clauses are not checked (not applicable to this family). seed={seed}"),
         "samples": [{"dim": 4, "rank": 2, "var": 0.37}, {"dependence": -0.5, "validate_args": True}],
